@@ -424,7 +424,8 @@ static void judge(Ctx &ctx, const SemModel &m, const std::vector<std::string> &l
                 }
                 bool cascade = false;
                 for (int x : d) {
-                    cascade = cascade || (x != ms.qi && wrongValue.count(x) != 0U);
+                    // a rate may read its own state: a wrong state value then explains the wrong rate
+                    cascade = cascade || ((x != ms.qi || ms.what == "rate") && wrongValue.count(x) != 0U);
                 }
                 if (cascade) {
                     stat("cascaded_mismatches_not_reported");
@@ -582,6 +583,8 @@ static void runSystem(Ctx &ctx)
     so.states = rng.range(1, 3);
     so.algebraics = rng.range(0, 4);
     so.nla = rng.chance(0.3);
+    so.nlaDense = true; // sparse / unguessed implicit systems are not analysable by this tree (C05 known findings)
+    so.nlaGuess = true;
     so.scaledUnits = rng.chance(0.7);
     so.exprDepth = rng.range(1, 3);
     so.odeSelfRate = so.ode && rng.chance(0.05);
